@@ -3,6 +3,8 @@ package wpool
 import (
 	"context"
 	"time"
+
+	"github.com/glebziz/fs_db/internal/verifhook"
 )
 
 func (p *Pool) Send(ctx context.Context, e Event) {
@@ -14,6 +16,7 @@ func (p *Pool) Send(ctx context.Context, e Event) {
 	if p.ctx.Err() != nil {
 		return
 	}
+	verifhook.Count("wpool.accepted")
 
 	select {
 	case <-p.ctx.Done():
